@@ -73,7 +73,7 @@ class ShapeProv:
         args = c.args
         if isinstance(f, ast.Attribute):
             head = self.M.dotted(f.value)
-            is_mod = head is not None and head[0] in self.f.mod.imports or (head is not None and head[0] in ("xp", "np"))
+            is_mod = head is not None and head[0] in self.f.mod.imports or (head is not None and (head[0] in ("xp", "np") or head[0] in self.M.xp_names(self.f)))
             if not is_mod:
                 b = self.v(f.value)
                 if f.attr in ("ravel", "flatten"):
@@ -228,7 +228,7 @@ class BinDomain:
             f = e.func
             if isinstance(f, ast.Attribute) and f.attr in ("reshape", "astype", "copy", "ravel", "flatten", "transpose", "squeeze", "view"):
                 head = self.M.dotted(f.value)
-                if not (head and head[0] in ("np", "xp")):
+                if not (head and (head[0] in ("np", "xp") or head[0] in self.M.xp_names(self.f))):
                     return self.v(f.value)
             tgt = self.M.resolve_call(self.f, e)
             if tgt[0] == "ext":
